@@ -178,7 +178,9 @@ func littleRead(r io.Reader, field string, data any) (err error) {
 // Unmarshal reads an EFI_GUID field.
 func (g *EfiGUID) Unmarshal(r io.Reader) error {
 	var efiguid [16]byte
-	if i, err := r.Read(efiguid[:]); err != nil || i != 16 {
+	// io.ReadFull: a reader may deliver fewer bytes than asked for (a pipe), or the last ones together
+	// with io.EOF.
+	if i, err := io.ReadFull(r, efiguid[:]); err != nil {
 		return fmt.Errorf("failed to read EFI_GUID (read %d bytes): %w", i, err)
 	}
 	result, _ := oabi.FromEFIGUID(efiguid[:])
